@@ -2,6 +2,7 @@
 //! input  = FIXTURE|MUTSEED|SCRIPT|LANG|FEAT|KERN|DIR|TEXT   (TEXT = comma-separated hex code points;
 //!          MUTSEED 0 = pristine font, otherwise a seeded mutation of the GSUB/GPOS/GDEF/kern/morx tables;
 //!          FEAT = `mask:<bits>` or `custom:tag.tag...`; DIR = l|r ; KERN = 0|1)
+//!        | G|<C05 case line>   a synthetic GPOS/GDEF/kern program run through gpos::apply + glyph_positions
 //! output = run:<n>:<maxgid>:<ok|err>:<flags>  where flags is a list of well-formedness violations
 //!          (empty = well-formed) | panic:<file>:<fn>:<kind> | slow:<ms>
 //! The judge (ocaml/c02/drv.ml) needs nothing else: the harness evaluates the run against the property's
@@ -17,6 +18,12 @@ use avh::prng::Rng;
 use std::io::Write;
 use std::panic::{catch_unwind, AssertUnwindSafe};
 use std::sync::Mutex;
+
+/// the C05 harness (synthetic GPOS / GDEF / kern programs over synthetic glyph runs), reused here for
+/// degenerate-but-parsable layout tables that byte mutation of fixture fonts practically never produces
+#[path = "c05.rs"]
+#[allow(dead_code)]
+mod c05;
 
 static LAST_PANIC: Mutex<String> = Mutex::new(String::new());
 
@@ -161,6 +168,11 @@ fn judge_run(infos: &[Info], input: &[char], num_glyphs: u16, pristine: bool) ->
 }
 
 fn run_case(input: &str) -> String {
+    if let Some(case) = input.strip_prefix("G|") {
+        // synthetic positioning program: only totality is judged here (C05 judges the positions)
+        let r = c05::run(case);
+        return if r == "panic" { format!("panic:{}", LAST_PANIC.lock().unwrap()) } else { "run:0:0:ok:".to_string() };
+    }
     let p: Vec<&str> = input.split('|').collect();
     let mut data = std::fs::read(format!("{}/tests/fonts/{}", repo(), p[0])).unwrap_or_default();
     let seed: u64 = p[1].parse().unwrap();
@@ -269,6 +281,9 @@ fn shift_script(cp: u32, font_script: &str) -> u32 {
 }
 
 fn gen(rng: &mut Rng) -> String {
+    if rng.chance(1, 8) {
+        return format!("G|{}", c05::gen(rng));
+    }
     let (font, fscript) = *rng.pick(FONTS);
     let script = if rng.chance(3, 4) { fscript } else { *rng.pick(SCRIPTS) };
     let seed = if rng.chance(1, 3) { 1 + rng.next() % 1_000_000_007 } else { 0 };
